@@ -8,8 +8,10 @@ HARNESSES = [("h_tree", "rel")]
 ASSUMPTIONS = [
     "the SP (VBK/BTC) trees of an instance are modified only through its ALT tree (documented precondition of the refcount invariant)",
     "histories are honest (props/_world.py History): header/body in arbitrary order, setState, comparePopScore, "
-    "invalidate/revalidate (BLOCK_FAILED_BLOCK), removeSubtree, removePayloads; calls outside a documented precondition are "
-    "answered SKIP by the harness (harness/world.hpp guards)",
+    "invalidate/revalidate (BLOCK_FAILED_BLOCK), removeSubtree, removePayloads, interleaved with mempool activity "
+    "(MemPool::submit of ATVs/VTBs/VBK blocks that are in no block and endorse arbitrary blocks - many fail on the current "
+    "tip -, generatePopData, removeAll, cleanUp); calls outside a documented precondition are answered SKIP by the harness "
+    "(harness/world.hpp guards)",
     "no finalization in the generated histories (it runs only on a loaded tree); T1 is weakened to set inclusion once a "
     "non-root block is finalized",
 ]
@@ -23,7 +25,7 @@ META = {
             "acceptBlockHeader (both need the model invariant S3 'a removed block is at VALID_UNKNOWN with only removed children'); "
             "the conjuncts ACTIVE <=> on the best chain / appliedBlockCount = |chain| / connected => ancestors connected. The full "
             "invariant list of harness/invariants.hpp (S1-S3 V1-V3 F1 T1 C1 C2 P1 P2 R1; ALT, VBK and BTC trees) is evaluated on the "
-            "implementation after EVERY step of general honest histories with payloads and of the ALT/PoW model histories, which are "
+            "implementation after EVERY step of general honest histories with payloads and mempool activity and of the ALT/PoW model histories, which are "
             "also compared with the model per step",
     "note": "Trusted: Coq kernel, extraction, OCaml driver, C++ harness and invariant checker (public getters only). F1 is one-"
             "directional: removeSubtree keeps FAILED_CHILD of descendants of a block whose FAILED_POP it drops (stale flag)",
